@@ -2191,7 +2191,8 @@ fn gen_net2(r: &mut Rng, thorough: bool) -> Vec<String> {
 }
 
 fn gen_net(r: &mut Rng, n: usize) -> Vec<String> {
-    let inputs = gen_parse_inputs(r, n);
+    // (the large valid siblings of gen_parse_inputs go to the functions only; the endpoints get sized requests of their own)
+    let inputs: Vec<Vec<u8>> = gen_parse_inputs(r, n).into_iter().filter(|b| b.len() <= 5000).collect();
     let eps = ["tcp", "atcp", "ws", "client", "aclient", "wsclient", "wsproxy"];
     let mut ops: Vec<String> = inputs.iter().enumerate().map(|(i, bs)| format!("net n{} {} {} {}", i, eps[i % eps.len()], hex(bs), r.below(2))).collect();
     for i in 0..(n / 40).max(4) {
